@@ -130,6 +130,9 @@ func (x *X) writesThrough(fi *FuncInfo, p *types.Var) bool {
 				if ix, ok := l.(*ast.IndexExpr); ok && rootVar(info, ix) == p {
 					found = true
 				}
+				if st, ok := l.(*ast.StarExpr); ok && rootVar(info, st.X) == p { // *p = v
+					found = true
+				}
 				if se, ok := l.(*ast.SelectorExpr); ok { // p.f = v
 					if sel, ok := info.Selections[se]; ok && sel.Kind() == types.FieldVal && rootVar(info, se.X) == p {
 						found = true
